@@ -480,6 +480,43 @@ def _iv_parse(a, pre):
     return P().parse(text)
 
 
+# ---------------------------------------------------------------- C17
+def _enc_parsed(v):
+    if hasattr(v, "remaining_seconds") or isinstance(v, _dt.timedelta) and not hasattr(v, "start"):
+        r = _enc_any_duration(v)
+    else:
+        r = enc(v)
+    try:
+        proj.chk(r)
+    except OverflowError:
+        r = {"k": r.get("k", "other"), "cls": r.get("cls", "?"), "unencodable": True, "w": [], "r3": [0, 0, 0], "years": 0,
+             "months": 0, "off": 0, "z": {"n": "?", "fo": 0}}
+    return r
+
+
+def _try_any(fn, *a, **kw):
+    try:
+        return _enc_parsed(fn(*a, **kw))
+    except Exception as e:  # noqa: BLE001
+        return enc(e)
+
+
+@op("parse_any")
+def _parse_any(a, pre):
+    text = proj.uncps(a["text"])
+    o = a["opts"]
+    kw = {"exact": o["exact"], "strict": o["strict"]}
+    if o["tz"]["n"] != "UTC":
+        kw["tz"] = tzobj(o["tz"])
+    if not o["strict"]:
+        kw["day_first"] = o["day_first"]
+        kw["year_first"] = o["year_first"]
+    py, rs = _lowlevel()
+    r = {"k": "parsed", "top": _try_any(P().parse, text, **kw), "py": _try_any(py, text)}
+    r["rs"] = _try_any(rs, text) if rs else r["py"]
+    return r
+
+
 # ---------------------------------------------------------------- execution
 class HarnessTimeout(Exception):
     """the call did not return within OP_TIMEOUT seconds (observed as non-termination)"""
